@@ -249,7 +249,7 @@ fn run<G: Group>(sc: &Scenario, st: &mut RunStats) -> Vec<Violation> {
     // challenges — or the batch must be refused before any challenge is drawn
     if sc.cfg.m >= 2 {
         let ccfg = Config { bits: sc.cfg.bits, m: 1, cap: 1, ext: sc.cfg.ext };
-        let cwit = WitnessSpec { values: vec![0], promises: vec![None], blind_seed: sc.fault_seed ^ 0xC04, seed_nonce: None, zero_blind: vec![] };
+        let cwit = WitnessSpec { values: vec![0], promises: vec![None], blind_seed: sc.fault_seed ^ 0xC04, seed_nonce: None, zero_blind: vec![], same_as_prev: vec![] };
         let cctx = Context { label: 7, extra: None };
         let cb = build::<G>(&ccfg, &cwit);
         if let Ok(Ok(cp)) = prove_mode::<G>(&cctx, &cb.statement, &cb.witness, &RngMode::Healthy(sc.rng_seed ^ 2)).0 {
@@ -305,7 +305,7 @@ fn run<G: Group>(sc: &Scenario, st: &mut RunStats) -> Vec<Violation> {
         let lcfg = Config { bits: 2, m: 1, cap: 1, ext: sc.cfg.ext };
         let mut msgs: Vec<Msg<G>> = Vec::with_capacity(k);
         for i in 0..k {
-            let w = WitnessSpec { values: vec![(i % 4) as u64], promises: vec![None], blind_seed: sc.fault_seed ^ (i as u64) << 8, seed_nonce: None, zero_blind: vec![] };
+            let w = WitnessSpec { values: vec![(i % 4) as u64], promises: vec![None], blind_seed: sc.fault_seed ^ (i as u64) << 8, seed_nonce: None, zero_blind: vec![], same_as_prev: vec![] };
             let c = Context { label: i % LABELS.len(), extra: Some((i as u32).to_le_bytes().to_vec()) };
             let b = build::<G>(&lcfg, &w);
             match prove_mode::<G>(&c, &b.statement, &b.witness, &RngMode::Healthy(sc.rng_seed ^ i as u64)).0 {
